@@ -321,6 +321,20 @@ static inline uint8_t *read_file(const char *path, size_t *len)
 	*len = off;
 	return b;
 }
+/* read-only view of a (possibly multi-GiB, sparse) file; release with unmap_file */
+#include <sys/mman.h>
+static inline uint8_t *map_file(const char *path, size_t *len)
+{
+	int fd = open(path, O_RDONLY);
+	if (fd < 0) return NULL;
+	struct stat st; fstat(fd, &st);
+	*len = st.st_size;
+	void *m = st.st_size ? mmap(NULL, st.st_size, PROT_READ, MAP_PRIVATE, fd, 0) : xmalloc(1);
+	close(fd);
+	return m == MAP_FAILED ? NULL : m;
+}
+static inline void unmap_file(uint8_t *p, size_t len) { if (!p) return; if (len) munmap(p, len); else free(p); }
+
 static inline int write_file(const char *path, const void *p, size_t n)
 {
 	int fd = open(path, O_WRONLY | O_CREAT | O_TRUNC, 0644);
